@@ -321,20 +321,68 @@ func ruleC11(p *Prog, r *Res) {
 	}
 	r.Note("operation groups: %s", strings.Join(gnames, " "))
 
-	// the inner worker closure of an API function: the literal invoked inline inside the posted closure
+	// the worker of an API function: among the closure posted on the service goroutine, the literals inside it and the
+	// declared functions it delegates to (closure-to-method refactorings), the function that contains most of the tag
+	// state changes (stores to Manager.tags / referencedBy, deletes)
+	tagScore := func(f *Fn) int {
+		info := f.Pkg.TypesInfo
+		n := 0
+		inspectShallow(f.Body(), func(x ast.Node) bool {
+			switch s := x.(type) {
+			case *ast.AssignStmt:
+				for _, l := range s.Lhs {
+					if ix, ok := ast.Unparen(l).(*ast.IndexExpr); ok && (isFieldOf(info, ix.X, tagsFld) || isFieldOf(info, ix.X, refByFld)) {
+						n++
+					}
+				}
+			case *ast.CallExpr:
+				if isBuiltin(info, s, "delete") && len(s.Args) == 2 && (isFieldOf(info, s.Args[0], tagsFld) || isFieldOf(info, s.Args[0], refByFld)) {
+					n++
+				}
+			}
+			return true
+		})
+		return n
+	}
+	helperNames := map[string]bool{"saveState": true, "event": true, "inheritTagUncertainty": true, "invalidateTags": true, "attachConverterToTag": true, "detachConverterFromTag": true,
+		"startTaggingJobIfNeeded": true, "startConverterJobIfNeeded": true, "startMergeJobIfNeeded": true, "referencesTag": true}
 	worker := func(api string) (*Fn, *Fn) {
 		f := p.Fn(api)
 		if f == nil {
 			return nil, nil
 		}
-		for _, posted := range ctx.postedIn(f) {
-			for _, l := range posted.Lits {
-				return f, l
+		var best *Fn
+		bestScore := -1
+		seen := map[*Fn]bool{}
+		var visit func(g *Fn, depth int)
+		visit = func(g *Fn, depth int) {
+			if g == nil || seen[g] || depth > 3 {
+				return
 			}
-			return f, posted
+			seen[g] = true
+			if sc := tagScore(g); sc > bestScore {
+				best, bestScore = g, sc
+			}
+			for _, l := range g.Lits {
+				visit(l, depth)
+			}
+			for _, c := range callsIn(g.Body()) {
+				if fn := p.Callee(g.Pkg, c); fn != nil && !helperNames[fn.Name()] {
+					if tf := p.FnOfObj(fn); tf != nil && tf.Short == "manager" && tf != f {
+						visit(tf, depth+1)
+					}
+				}
+			}
 		}
-		p.anchorFail("posted closure of %s", api)
-		return f, nil
+		posted := ctx.postedIn(f)
+		if len(posted) == 0 {
+			p.anchorFail("posted closure of %s", api)
+			return f, nil
+		}
+		for _, pc := range posted {
+			visit(pc, 0)
+		}
+		return f, best
 	}
 
 	// fresh *tag variables: only ever assigned &tag{…}
@@ -873,6 +921,63 @@ func validatedTagKey(p *Prog, f *Fn, ix *ast.IndexExpr, tagsFld *types.Var, refT
 	})
 	if okRange {
 		return true, why
+	}
+	// (ii') the key is a parameter of a function literal passed to a slices.*Func helper over a reference list, or a
+	// range variable over a local that only ever holds reference lists
+	isRefList := func(e ast.Expr) bool {
+		e = ast.Unparen(e)
+		if c, ok := e.(*ast.CallExpr); ok && p.Callee(f.Pkg, c) == refTags {
+			return true
+		}
+		if se, ok := e.(*ast.SelectorExpr); ok && (se.Sel.Name == "MainTags" || se.Sel.Name == "SubQueryTags") {
+			return true
+		}
+		return false
+	}
+	refListVar := func(o types.Object) bool {
+		if o == nil {
+			return false
+		}
+		all, n := true, 0
+		ast.Inspect(root.Body(), func(x ast.Node) bool {
+			if as, ok := x.(*ast.AssignStmt); ok {
+				for i, l := range as.Lhs {
+					if sameObj(info, l, o) && i < len(as.Rhs) {
+						n++
+						if !isRefList(as.Rhs[i]) {
+							all = false
+						}
+					}
+				}
+			}
+			return true
+		})
+		return all && n > 0
+	}
+	okLit := false
+	ast.Inspect(root.Body(), func(x ast.Node) bool {
+		switch s := x.(type) {
+		case *ast.CallExpr:
+			if fn := p.Callee(f.Pkg, s); fn != nil && fn.Pkg() != nil && fn.Pkg().Path() == "slices" && len(s.Args) == 2 {
+				if lit, ok := ast.Unparen(s.Args[1]).(*ast.FuncLit); ok && (isRefList(s.Args[0]) || refListVar(identObj(info, s.Args[0]))) {
+					for _, fld := range lit.Type.Params.List {
+						for _, id := range fld.Names {
+							if info.Defs[id] == keyObj {
+								okLit = true
+							}
+						}
+					}
+				}
+			}
+		case *ast.RangeStmt:
+			if s.Value != nil && sameObj(info, s.Value, keyObj) && refListVar(identObj(info, s.X)) {
+				okLit = true
+			}
+		}
+		return true
+	})
+	if okLit {
+		return true, "element of a tag's reference list (through a local / a slices helper)"
 	}
 	// (iii) a comma-ok lookup of the same key with a failing/skipping branch occurs earlier in the function
 	found := false
